@@ -5,6 +5,7 @@ import (
 	"encoding/binary"
 	"errors"
 	"fmt"
+	"io"
 	"math"
 	"os"
 	"reflect"
@@ -32,6 +33,7 @@ var (
 	ErrColCountMismatch  = errors.New("value list count does not match column list count")
 	ErrDBExists          = errors.New("database already exists")
 	ErrDBNotExist        = errors.New("database does not exist")
+	ErrDBIncomplete      = errors.New("database was not created completely (CREATE DATABASE was interrupted)")
 	ErrDBNotSelected     = errors.New("database not been selected")
 	ErrFieldAmbiguous    = errors.New("field is ambiguous")
 	ErrFieldNotFound     = errors.New("field not found")
@@ -347,7 +349,16 @@ func OpenRelation(dbName string, forceWALSync bool) (*RelationService, error) {
 		return nil, err
 	}
 	if err := fs.open(); err != nil {
+		fs.file.Close()
+		if errors.Is(err, io.EOF) || errors.Is(err, io.ErrUnexpectedEOF) {
+			return nil, ErrDBIncomplete
+		}
 		return nil, err
+	}
+	if fs.pageTableRoot == 0 {
+		// the header was written but the catalog never was
+		fs.close()
+		return nil, ErrDBIncomplete
 	}
 	wal, err := newWal(dbName, forceWALSync)
 	if err != nil {
